@@ -1088,7 +1088,7 @@ def run : Nat → Task → M Out
         let baseLayers : List Layer ← match base with
           | none => pure []
           | some (.obj o) => layersOf o
-          | some _ => fail "user" "ObjExtend lhs should be an object value"
+          | some _ => pure []   -- `e { … }` is `e + { … }`: the object is built without a super, then added
         let mkField (fc : Ctx) (f : Field) : M (Option FieldDef) := do
           match f with
           | .mk nm plus ps vis value =>
@@ -1126,7 +1126,11 @@ def run : Nat → Task → M Out
             | _ => undecided "internal: comp"
         let isEmpty := layer.fields.isEmpty && layer.asserts.isEmpty
         let ls := if isEmpty then baseLayers else baseLayers ++ [layer]
-        pure (.val (.obj (← allocObj ls)))
+        let o ← allocObj ls
+        match base with
+        | none | some (.obj _) => pure (.val (.obj o))
+        | some (.str x) => do pure (.val (.str (x ++ (← toStrM (.obj o)))))
+        | some _ => fail "type" "+ operands"
 
 /-- out of fuel.  (Also makes Lean generate the equation lemmas `run.eq_*` / `run.render.eq_*` HERE:
     generated lazily in two downstream proof modules they clash as soon as both are imported.) -/
